@@ -173,7 +173,16 @@ func checkC10(c *Ctx) {
 	// the stream handler cannot be made to abort by any input: the no-panic obligations (C07 engine)
 	// of everything reachable from it
 	if hm := c.P.Func("rtcm/handler", "(*Handler).HandleMessages"); hm != nil {
-		runBounds(c, "C10-R4-R3", []*ssa.Function{hm})
+		// the display consumer decodes and formats every message in the same process: a panic there ends
+		// the filter too, so the roots are all decode/display entry points (those of C07)
+		roots := []*ssa.Function{hm}
+		if all := c07Roots(c, "C10-R4-R3"); len(all) >= 5 {
+			roots = all
+		}
+		runBounds(c, "C10-R4-R3", roots)
+		// and nothing on the decode/display path writes into the frame's bytes, which the output and
+		// record consumers are writing at the same time (C01-R3 / C15-R2)
+		ruleRawBuffersReadOnly(c, "C10-R7", c.P.ReachableModule(roots))
 		c.MinInstances("C10-R4-R3", 50)
 	} else {
 		c.Unresolved("C10-R4-R3", "rtcm/handler.(*Handler).HandleMessages")
